@@ -319,7 +319,14 @@ class Interp:
         outs = m(node, st)
         final = []
         ghosts = getattr(getattr(self.ctx, "current_contract", None), "ghost_after", None)
+        lemmas_after = getattr(getattr(self.ctx, "current_contract", None), "lemma_after", None)
         for o in outs:
+            if lemmas_after and o.kind == "normal" and self.ctx.inline_depth == 0:
+                src = self.ctx.current_mod.lines[node.lineno - 1].strip() if hasattr(node, "lineno") else ""
+                for prefix, lems in lemmas_after.items():
+                    if src.startswith(prefix):
+                        for lem in lems:
+                            o.st.assume(self.ctx.registry.eval_clause(self, o.st, lem), tag="lemma-after")
             if ghosts and o.kind == "normal" and self.ctx.inline_depth == 0:
                 src = self.ctx.current_mod.lines[node.lineno - 1].strip() if hasattr(node, "lineno") else ""
                 for prefix, binds in ghosts.items():
